@@ -80,6 +80,32 @@ def operand_roles(prog, facts, body, term, acc):
     return roles
 
 
+def _intersection_wrapper(facts, callee):
+    """If `callee` is an in-crate helper that just returns check_intersection(param i, param j)
+    (possibly through iter()/clone()/into_iter()), return (i, j); else None."""
+    tb = facts.target_bodies(callee, precise=True)
+    if len(tb) != 1 or tb[0].is_closure:
+        return None
+    body = tb[0]
+    try:
+        ps = [p for p in enumerate_paths(body, facts) if p.end == "return"]
+    except Exception:
+        return None
+    if len(ps) != 1 or ps[0].conds:
+        return None
+    r = ps[0].ret
+    if not (isinstance(r, tuple) and r[0] == "call" and S.callee_at(body, r[1]).key == A.F_CHECK_INTERSECTION):
+        return None
+    out = []
+    for a in r[2]:
+        while isinstance(a, tuple) and a and a[0] == "call" and S.callee_at(body, a[1]).name in TRANSPARENT and a[2]:
+            a = a[2][0]
+        if not (isinstance(a, tuple) and a[0] == "param"):
+            return None
+        out.append(a[1])
+    return tuple(out) if len(out) == 2 else None
+
+
 # ------------------------------------------------------------------ MATRIX / DEPHIT
 
 def matrix(ctx, report, rule, facts, config, want=("matrix", "exact", "dephit", "index")):
@@ -99,9 +125,18 @@ def matrix(ctx, report, rule, facts, config, want=("matrix", "exact", "dephit", 
     cond_info = {}
     for p in paths:
         for (ct, cv, cn, cb) in p.conds:
-            if _is_call(b, ct, "check_intersection") and S.callee_at(b, ct[1]).key == A.F_CHECK_INTERSECTION and ct not in cond_info:
-                x = operand_roles(prog, facts, b, ct[2][0], acc)
-                y = operand_roles(prog, facts, b, ct[2][1], acc)
+            if ct in cond_info or not (isinstance(ct, tuple) and ct and ct[0] == "call"):
+                continue
+            ops = None
+            if S.callee_at(b, ct[1]).key == A.F_CHECK_INTERSECTION:
+                ops = (ct[2][0], ct[2][1])
+            else:
+                w = _intersection_wrapper(facts, S.callee_at(b, ct[1]))
+                if w is not None and max(w) <= len(ct[2]):
+                    ops = (ct[2][w[0] - 1], ct[2][w[1] - 1])
+            if ops is not None:
+                x = operand_roles(prog, facts, b, ops[0], acc)
+                y = operand_roles(prog, facts, b, ops[1], acc)
                 cond_info[ct] = (x, y, cb)
     for ct, (x, y, cb) in cond_info.items():
         for a in x:
@@ -622,7 +657,12 @@ def crossoff(ctx, report, rule, facts, config, want=("own-stage", "all-occurrenc
             if not t_.full:
                 problems.append("the ids of the stage are not fully traversed: " + t_.why)
             if "Flatten<" not in (t_.iter_ty or ""):
-                problems.append("the traversal does not flatten the groups of the stage (%s)" % t_.iter_ty)
+                # accepted alternative: an inner full loop over each group
+                inner = [u for u in trs if root(u.source, bt, facts.crate) == (("elem", t_.header), [])]
+                if len(inner) == 1 and inner[0].full:
+                    tr = inner[0]
+                else:
+                    problems.append("the traversal does not reach the ids inside the groups of the stage (%s)" % t_.iter_ty)
     if tr is None:
         problems.append("no traversal of self.ids[stage] found")
     removers = []
@@ -803,8 +843,11 @@ def width(ctx, report, rule, facts, config):
             elif a[0] == "int":
                 fnrefs.append(a)
         t = t[2][0] if t[2] else None
-    ok = names == ["unwrap_or", "max", "map", "iter", "deref"] or names == ["unwrap_or", "max", "map", "iter"]
-    ok = ok and sm.key in fnrefs and ("int", 0) in fnrefs and t == ("field", ("param", 1), "stages", A.SD)
+    ok = names in (["unwrap_or", "max", "map", "iter", "deref"], ["unwrap_or", "max", "map", "iter"])
+    fold_max = names in (["fold", "map", "iter", "deref"], ["fold", "map", "iter"]) and any(
+        isinstance(f_, str) and f_.endswith("::max") or (isinstance(f_, str) and "cmp::Ord" in f_) for f_ in fnrefs) or (
+        names[:1] == ["fold"] and any(isinstance(f_, str) and "max" in f_.rsplit("::", 1)[-1] for f_ in fnrefs))
+    ok = (ok or fold_max) and sm.key in fnrefs and ("int", 0) in fnrefs and t == ("field", ("param", 1), "stages", A.SD)
     report.ob(rule, "SendDispatcher::max_threads", ok, "self.stages.iter().map(Stage::max_threads).max().unwrap_or(0)" if ok else
               "max_threads is computed as %s over %s" % (list(reversed(names)), t), site=dm.loc(), config=config)
     d = facts.one(A.DISP + "::max_threads")
